@@ -42,8 +42,10 @@ impl Monitor for C08 {
                         if !same_core {
                             out.violation(P, "unreleased_only_released", format!("unreleased batch {} changed other than by release: {:?} -> {:?}", h0.batch_id, h0, h1));
                         }
+                        // the statement freezes the withdraw rates once a batch is released; what an unreleased entry
+                        // shows in that field meanwhile (an estimate, say) is not fixed (counted)
                         if !h1.released && (h0.bsei_withdraw != h1.bsei_withdraw || h0.stsei_withdraw != h1.stsei_withdraw) {
-                            out.violation(P, "unreleased_only_released", format!("withdraw rate of batch {} changed without release", h0.batch_id));
+                            out.count("c08.unreleased_withdraw_rates_changed");
                         }
                         if h1.released {
                             // released in this step: must be mature, and only a successful withdrawal releases
@@ -102,7 +104,7 @@ impl Monitor for C08 {
         // ---- undelegation: at most once per batch, only after more than one epoch, for the recorded value
         if let Op::Unbond { .. } = c.op {
             let prev = self.last_undelegation_seen.unwrap_or(pre.last_unbonded_time);
-            if pre.time - prev == pre.params.epoch_period + 1 {
+            if pre.time.saturating_sub(prev) == pre.params.epoch_period + 1 {
                 out.count("c08.unbonds_first_second_after_epoch");
             }
         }
@@ -134,10 +136,16 @@ impl Monitor for C08 {
                             out.violation(P, "undelegated_equals_recorded_value", format!("batch {}: history records ({} @ {}, {} @ {}) = {} but {} was undelegated", h.batch_id, h.bsei_amount, h.bsei_applied, h.stsei_amount, h.stsei_applied, expected, und));
                         }
                         // time of the previous undelegation as recorded in the history (instantiation time before the first)
+                        // "more than one epoch period since the previous undelegation": the first batch has no previous
+                        // undelegation (the hub's initial timer stands in for the workload's aim only)
+                        let first = self.last_undelegation_seen.is_none() && pre.history.is_empty();
                         let prev_undelegation = self.last_undelegation_seen.unwrap_or(pre.last_unbonded_time);
-                        let passed = pre.time - prev_undelegation;
+                        let passed = pre.time.saturating_sub(prev_undelegation);
                         self.last_undelegation_seen = Some(pre.time);
-                        if passed <= pre.params.epoch_period {
+                        if first {
+                            out.count("c08.first_undelegations");
+                        }
+                        if !first && passed <= pre.params.epoch_period {
                             out.violation(P, "epoch_gate", format!("batch {} undelegated {}s after the previous undelegation, epoch period {}", h.batch_id, passed, pre.params.epoch_period));
                         }
                         if passed == pre.params.epoch_period + 1 {
@@ -148,7 +156,7 @@ impl Monitor for C08 {
                     }
                 } else if let Op::Unbond { .. } = c.op {
                     let prev_undelegation = self.last_undelegation_seen.unwrap_or(pre.last_unbonded_time);
-                    let passed = pre.time - prev_undelegation;
+                    let passed = pre.time.saturating_sub(prev_undelegation);
                     if passed == pre.params.epoch_period {
                         out.count("c08.unbonds_exactly_at_epoch_boundary_not_undelegating");
                     }
